@@ -187,6 +187,33 @@ pub fn suite_c04(ctx: &mut Ctx) {
             }
             ctx.sink.free = true;
         }
+        // directed: a sum that is an exact rounding tie in its leading bits plus "dust" far below
+        // (more than 64 bit positions away, across limb boundaries): the dust alone decides the rounding
+        let nd = ctx.q(600, 12_000);
+        for h in 0..nd {
+            ctx.sink.boundary();
+            ctx.sink.free = false;
+            let maxs = ((ty.n - 2) << ty.es) as i32;
+            let scale = ctx.rng.gen_range(-maxs / 2..maxs);
+            let big = gen::from_scale(ty.n, ty.es, scale, match h % 4 { 0 => 0, 1 => ctx.rng.gen::<u64>(), 2 => u64::MAX, _ => 1u64 << 63 });
+            let (_, sc, nf, _) = gen::decode(ty.n, ty.es, big);
+            let half = gen::from_scale(ty.n, ty.es, sc - nf as i32 - 1, 0);
+            let one = 1u64 << (ty.n - 2);
+            let dust_a = gen::from_scale(ty.n, ty.es, ctx.rng.gen_range(-maxs..(sc - 70).max(-maxs + 1)), ctx.rng.gen::<u64>());
+            let dust_b = if ctx.rng.gen::<bool>() { dust_a } else { gen::from_scale(ty.n, ty.es, ctx.rng.gen_range(-maxs..0), ctx.rng.gen::<u64>()) };
+            let neg_all = ctx.rng.gen::<bool>();
+            let sg = |p: u64| if neg_all { gen::neg(ty.n, p) } else { p };
+            let mut steps = vec![
+                Step { op: "q_add", sp: "pp", x: vec![sg(big), one], bs: vec![] },
+                Step { op: "q_add", sp: "p", x: vec![sg(half)], bs: vec![] },
+                Step { op: if ctx.rng.gen::<bool>() { "q_add" } else { "q_sub" }, sp: "pp", x: vec![dust_a, dust_b], bs: vec![] },
+            ];
+            if h % 3 == 0 {
+                steps.swap(0, 2);
+            }
+            run_history(ctx, ty, 0, &steps, 1, h % 5 == 0);
+            ctx.sink.free = true;
+        }
         // directed: carry/borrow chains around zero and at the top
         ctx.sink.boundary();
         ctx.sink.free = false;
